@@ -35,11 +35,14 @@ Fs0(c) ==
     [] OTHER                      -> {}
 Init == /\ cfg \in Cfgs /\ hs = S!InitS(cfg) /\ hd = D!InitD(Fs0(cfg)) /\ now = 1000 /\ tr = <<>> /\ ins = <<>>
 
+\* (a "lazy" input is a None-call after which the caller retrieves nothing: PDUs stay queued)
+KindOf(i) == IF i.k = "lazy" THEN "fsm" ELSE i.k
+TakeOf(i) == IF i.k = "lazy" THEN 0 ELSE -1
 EvS(i, c, dr) ==
-  [side |-> "S", call |-> i.k, arg |-> i.a, now |-> now, take |-> -1, wrej |-> FALSE, pre |-> S!PubS(hs), post |-> S!PubS(dr.h),
+  [side |-> "S", call |-> KindOf(i), arg |-> i.a, now |-> now, take |-> TakeOf(i), wrej |-> FALSE, pre |-> S!PubS(hs), post |-> S!PubS(dr.h),
    ret |-> c.ret, exc |-> c.exc, excr |-> c.excr, excw |-> "model", out |-> dr.out, ind |-> c.ind, flt |-> c.flt, fs |-> <<>>]
 EvD(i, c, dr) ==
-  [side |-> "D", call |-> i.k, arg |-> i.a, now |-> now, take |-> -1, wrej |-> i.w, pre |-> D!PubD(hd), post |-> D!PubD(dr.h),
+  [side |-> "D", call |-> KindOf(i), arg |-> i.a, now |-> now, take |-> TakeOf(i), wrej |-> i.w, pre |-> D!PubD(hd), post |-> D!PubD(dr.h),
    ret |-> c.ret, exc |-> c.exc, excr |-> c.excr, excw |-> "model", out |-> dr.out, ind |-> c.ind, flt |-> c.flt,
    fs |-> SetToSeq(dr.h.fs)]
 Step(i) ==
@@ -48,16 +51,16 @@ Step(i) ==
   /\ IF i.k = "tick" THEN now' = now + i.a.dt /\ UNCHANGED <<hs, hd, tr>>
      ELSE IF Side = "S" THEN
         LET c == CASE i.k = "put" -> S!SrcPut(hs, cfg, i.a, now)
-                   [] i.k = "fsm" -> S!SrcFsm(hs, cfg, i.a, now)
+                   [] i.k \in {"fsm", "lazy"} -> S!SrcFsm(hs, cfg, i.a, now)
                    [] i.k = "reset" -> S!SrcReset(hs, now)
                    [] OTHER -> S!SrcCancel(hs, cfg, i.a.right, now)
-            dr == S!SrcDrain(c.h, -1) IN
+            dr == S!SrcDrain(c.h, TakeOf(i)) IN
         hs' = dr.h /\ tr' = Append(tr, EvS(i, c, dr)) /\ UNCHANGED <<hd, now>>
      ELSE
-        LET c == CASE i.k = "fsm" -> D!DstFsm(hd, cfg, i.a, now, i.w)
+        LET c == CASE i.k \in {"fsm", "lazy"} -> D!DstFsm(hd, cfg, i.a, now, i.w)
                    [] i.k = "reset" -> D!DstReset(hd, now)
                    [] OTHER -> D!DstCancel(hd, cfg, i.a.right, now)
-            dr == D!DstDrain(c.h, -1) IN
+            dr == D!DstDrain(c.h, TakeOf(i)) IN
         hd' = dr.h /\ tr' = Append(tr, EvD(i, c, dr)) /\ UNCHANGED <<hs, now>>
   /\ UNCHANGED cfg
 Next == \E i \in InputsOf(cfg, hs, hd) : Step(i)
